@@ -1,0 +1,64 @@
+//go:build verif
+
+package hotline
+
+import (
+	"context"
+	"io"
+)
+
+// This file exports unexported entry points for the external verification harness.
+// It is compiled only with -tags verif and adds no behaviour.
+
+type VerifFlattenedFileObject = flattenedFileObject
+type VerifTransfer = transfer
+type VerifHandshake = handshake
+type VerifFolderUpload = folderUpload
+
+func (s *Server) VerifHandleNewConnection(ctx context.Context, rwc io.ReadWriteCloser, remoteAddr string) error {
+	return s.handleNewConnection(ctx, rwc, remoteAddr)
+}
+
+func (s *Server) VerifHandleFileTransfer(ctx context.Context, rw io.ReadWriter, remoteAddr string) error {
+	return s.handleFileTransfer(context.WithValue(ctx, contextKeyReq, requestCtx{remoteAddr: remoteAddr}), rw)
+}
+
+func (s *Server) VerifProcessOutbox() { s.processOutbox() }
+
+func (s *Server) VerifKeepaliveHandler(ctx context.Context) { s.keepaliveHandler(ctx) }
+
+func (s *Server) VerifOutbox() chan Transaction { return s.outbox }
+
+func (s *Server) VerifHandlers() map[TranType]HandlerFunc { return s.handlers }
+
+func VerifPerformHandshake(rw io.ReadWriter) error { return performHandshake(rw) }
+
+func VerifReceiveFile(r io.Reader, targetFile, resForkFile, infoFork, counterWriter io.Writer) error {
+	return receiveFile(r, targetFile, resForkFile, infoFork, counterWriter)
+}
+
+func VerifFormattedPath(pathItemCount [2]byte, raw []byte) string {
+	fu := folderUpload{PathItemCount: pathItemCount, FileNamePath: raw}
+	return fu.FormattedPath()
+}
+
+func VerifTransactionScanner(data []byte, atEOF bool) (int, []byte, error) {
+	return transactionScanner(data, atEOF)
+}
+
+// VerifTableSizes reports the number of private chats and pending file transfers when the
+// in-memory managers are in use (-1 otherwise).
+func (s *Server) VerifTableSizes() (chats, transfers int) {
+	chats, transfers = -1, -1
+	if cm, ok := s.ChatMgr.(*MemChatManager); ok {
+		cm.mu.Lock()
+		chats = len(cm.chats)
+		cm.mu.Unlock()
+	}
+	if fm, ok := s.FileTransferMgr.(*MemFileTransferMgr); ok {
+		fm.mu.Lock()
+		transfers = len(fm.fileTransfers)
+		fm.mu.Unlock()
+	}
+	return chats, transfers
+}
